@@ -95,7 +95,7 @@ template <class C> struct Runner {
 };
 void run(Ctx &ctx) {
     Local lc; Runner<char> ra(&ctx, &lc); Runner<wchar_t> rw(&ctx, &lc); SanWatch sw;
-    int Le = ctx.secondary ? 3 : ctx.quick() ? 5 : 6, Lu = ctx.secondary ? 4 : ctx.quick() ? 6 : 7;
+    int Le = (ctx.secondary ? 3 : ctx.quick() ? 5 : 6) + ctx.bonus, Lu = (ctx.secondary ? 4 : ctx.quick() ? 6 : 7) + ctx.bonus;
     // escape: every single character, every pair over 14 symbols, all strings over 7 symbols
     uint64_t idx = 0;
     for (int c = 1; c < 256; c++) if (ctx.mine(idx++)) { Str s(1, (char)c); ra.escape_case(s); rw.escape_case(s); }
@@ -105,7 +105,7 @@ void run(Ctx &ctx) {
     all_strings(ctx, Str("%0aAdDg+x\r\n", 11), Lu, [&](const Str &s) { if (ctx.expired()) return; ra.unescape_case(s); rw.unescape_case(s); });
     // token sequences: interactions that short raw strings cannot reach (encoded CR/LF next to malformed '%', '+', raw breaks)
     {
-        std::vector<Str> toks = { "%0D", "%0A", "%0d", "%0a", "%", "%A", "%4", "%g", "a", "+", "%41", "\r", "\n", "%2" }; int nt = ctx.secondary ? 3 : ctx.quick() ? 4 : 5; uint64_t ti = 0;
+        std::vector<Str> toks = { "%0D", "%0A", "%0d", "%0a", "%", "%A", "%4", "%g", "a", "+", "%41", "\r", "\n", "%2" }; int nt = (ctx.secondary ? 3 : ctx.quick() ? 4 : 5) + ctx.bonus; uint64_t ti = 0;
         token_seqs(toks, nt, [&](const std::vector<int> &seq) { if (!ctx.mine(ti++) || ctx.expired()) return; Str t; for (int k : seq) t += toks[k]; ra.unescape_case(t); rw.unescape_case(t); });
         std::vector<Str> etoks = { "\r", "\n", " ", "a", "%", "\xff", "+" }; int ne = ctx.secondary ? 3 : ctx.quick() ? 6 : 7; (void)ne;
     }
